@@ -36,7 +36,8 @@ def media(ct):
 class Integration:
     """one integration with its dispatcher; register(methods) -> post(path, body, content_type)"""
 
-    def __init__(self, kind, path, status_by_error=None, endpoint='', endpoint_mode='plain', target='endpoint', spec=None, specs=None, mount=None):
+    def __init__(self, kind, path, status_by_error=None, endpoint='', endpoint_mode='plain', target='endpoint', spec=None, specs=None, mount=None,
+                 main_kwargs=None, body_reader_hook=False, chunked=False):
         """endpoint: '' = the integration's main endpoint, '/x' = an additional endpoint added with add_endpoint (aiohttp, flask)"""
         self.kind = kind
         self.path = path
@@ -49,15 +50,18 @@ class Integration:
         if specs is not None:
             kw['specs'] = specs
         self.mount = mount
+        self.body_reader_hook = body_reader_hook      # flask: a before_request hook that reads the body first (audit log, signature check)
+        self.chunked = chunked                        # wsgi: the body arrives with Transfer-Encoding: chunked (no Content-Length)
+        main_kw = dict(kw, **(main_kwargs or {}))     # dispatcher options of the MAIN endpoint only (middlewares, error handlers)
         if kind == 'aiohttp':
-            self.rpc = ia.Application(path, **kw)
+            self.rpc = ia.Application(path, **main_kw)
             self.dispatcher = self.rpc.dispatcher
         elif kind == 'flask':
             self.app = flask.Flask('c18')
-            self.rpc = ifl.JsonRPC(path, **kw)
+            self.rpc = ifl.JsonRPC(path, **main_kw)
             self.dispatcher = self.rpc.dispatcher
         else:
-            self.rpc = iw.JsonRPC(path)
+            self.rpc = iw.JsonRPC(path, **(main_kwargs or {}))
             self.dispatcher = self.rpc.dispatcher
         if endpoint:
             if kind.startswith('werkzeug'):
@@ -98,23 +102,43 @@ class Integration:
                 self.app.register_blueprint(bp, url_prefix=self.mount)
             else:
                 self.rpc.init_app(self.app)
+            if self.body_reader_hook:
+                @self.app.before_request
+                def audit():
+                    flask.request.get_data()          # e.g. request logging / signature verification
             self.client = self.app.test_client()
         elif self.kind == 'werkzeug':
             self.client = werkzeug.test.Client(self.rpc)
         elif self.kind == 'werkzeug-wsgi_app':
             # the documented way to wrap the application in wsgi middlewares: app.wsgi_app = Middleware(app.wsgi_app)
             self.client = werkzeug.test.Client(self.rpc.wsgi_app)
+        elif self.mount:
+            # the JSON-RPC application is mounted under a url prefix of an outer aiohttp application
+            self.outer = web.Application()
+            self.outer.add_subapp(self.mount, self.rpc.app)
+            self.outer.freeze()
         else:
             self.rpc.app.freeze()
 
     def post(self, body, content_type, path=None, extra_headers=None):
         self.ready()
-        path = path if path is not None else ((self.path or '') + self.endpoint or '/')
+        path = path if path is not None else ((self.mount or '') + (self.path or '') + self.endpoint or '/')
         headers = {} if content_type is None else {'Content-Type': content_type}
         headers.update(extra_headers or {})
         if self.kind in ('flask', 'werkzeug', 'werkzeug-wsgi_app'):
             try:
-                r = self.client.post(path, data=body, headers=headers)
+                if self.chunked:
+                    # what a WSGI server hands over for a chunked request: no CONTENT_LENGTH, an input stream that ends by itself
+                    env = werkzeug.test.EnvironBuilder(method='POST', path=path, data=body, headers=headers).get_environ()
+                    env.pop('CONTENT_LENGTH', None)
+                    env['HTTP_TRANSFER_ENCODING'] = 'chunked'
+                    env['wsgi.input_terminated'] = True
+                    wsgi = self.app if self.kind == 'flask' else (self.rpc.wsgi_app if self.kind == 'werkzeug-wsgi_app' else self.rpc)
+                    it, status, hdrs = werkzeug.test.run_wsgi_app(wsgi, env)
+                    data = b''.join(it)
+                    return Reply(int(status.split()[0]), media(hdrs.get('Content-Type')), data, raw_content_type=hdrs.get('Content-Type'))
+                else:
+                    r = self.client.post(path, data=body, headers=headers)
             except Exception as e:   # noqa - an exception escaping the WSGI app is not an HTTP reply
                 return Reply(None, None, b'', raised='%s: %s' % (type(e).__name__, e))
             return Reply(r.status_code, media(r.headers.get('Content-Type')), r.get_data(), raw_content_type=r.headers.get('Content-Type'))
@@ -135,7 +159,7 @@ class Integration:
         """the request is handled by the real aiohttp application and the response is WRITTEN through aiohttp's own
         prepare() / write_eof() into a recording payload writer: the reply is what reached the writer (a response object
         that was already sent once writes nothing again - exactly what happens on a real connection)"""
-        app = self.rpc.app
+        app = self.outer if (self.kind == 'aiohttp' and self.mount) else self.rpc.app
 
         async def go():
             loop = asyncio.get_running_loop()
